@@ -155,6 +155,20 @@ func init() {
 		}})
 }
 
+func init() {
+	reg(&PropSpec{ID: "C08", Title: "Compression is lossless for every input (wrappers of this repository)", DesignRef: "DESIGN.md §4 C08",
+		Groups: []Group{
+			{Funcs: `^compression/lz4\.(decompress|bufferFromReader)$`},
+			{Funcs: `^\(compression/lz4\.Compressor\)\.(Compress|CompressWithLength|Decompress|DecompressWithLength)$`},
+			{Funcs: `^compression/snappy\.bufferFromReader$|^\(compression/snappy\.Compressor\)\.(CompressWithLength|DecompressWithLength)$`},
+		},
+		Assume: []string{
+			"ASSUMED contracts of github.com/pierrec/lz4/v4: a block is invalid or denotes one byte string; UncompressBlock succeeds exactly when the block is valid and the destination is at least that long, and returns (0, err) otherwise; the empty block decodes to nothing; CompressBlock succeeds into a buffer of CompressBlockBound(n) bytes; no block expands by more than 255:1",
+			"NOT covered: that decompress(compress(b)) == b end to end (the LZ4 and Snappy algorithms are third-party code, partly assembly; the byte strings flow through bytes.Buffer/Reader and the proof would need an extensional byte-string theory); what is proved is what this repository owns: the output-buffer sizing loop of decompress succeeds on every valid block with the exact length and terminates, no wrapper panics, and each wrapper touches only its two streams",
+			"snappy.Encode/Decode are used without contract (results unconstrained)",
+		}})
+}
+
 // Select returns the functions (keys) of a property with their class filters.
 func (p *PropSpec) Select(w *World) map[string]*Group {
 	out := map[string]*Group{}
